@@ -37,6 +37,18 @@ CHECKS["C02"] = (
     "to succeed for the authenticating client (C01); real thread pre-emption inside one API call is outside property and model.",
     "DESIGN.md §6 C02")
 
+CHECKS["C03"] = (
+    "Rocq proof (finality by monotonicity over all operation sequences, refusal at every endpoint, cascade and frame theorems) + vm_compute correspondence with the real endpoints and an independent liveness oracle",
+    "Theorems (Props/C03.v, closed): dead = not Item.is_active (C03_dead_is); a dead token stays dead after ANY operation sequence "
+    "(C03_final: flags never cleared, usage never drops across an operation, clock monotone); a dead token is refused by userinfo, "
+    "reported inactive by introspection, refused by both token-endpoint parse steps and mints nothing in either process step; grant, "
+    "client-session and recursive token revocation kill every token below; every token of another grant is left bit-identical "
+    "(four isolation theorems). Model tied to the real OIDC and OAuth2 providers on every run (every outcome + whole session state of "
+    "random and structured histories); the oracle keeps a reference liveness from the history alone and probes dead tokens out of band.",
+    LEVEL_NOTE_COMMON + "Revoking the parent token cascades only through the recursive API / OIDC replay path (the revocation endpoint's "
+    "default policy revokes exactly the presented token) - stated in DESIGN.md; token values abstracted (C04).",
+    "DESIGN.md §6 C03")
+
 NOT_YET = "not claimed in this snapshot: its model/theorems/driver are not built yet (DESIGN.md §9 build order); no check is registered rather than a weaker technique"
 
 
